@@ -390,20 +390,7 @@ var (
 
 func realInstall() {
 	realOnce.Do(func() {
-		client.RegisterTest(realTrapType, func(ctx context.Context, d client.Destination) (client.Impl, error) {
-			w := curReal.Load()
-			if w != nil {
-				w.trap("pre-dial")
-			}
-			impl, err := gclient.New(ctx, d)
-			if err != nil {
-				return nil, err
-			}
-			if w != nil {
-				w.trap("post-dial")
-			}
-			return impl, nil
-		})
+		client.RegisterTest(realTrapType, realTrapCtor)
 		orig := gclient.ToSubscribeRequest
 		gclient.ToSubscribeRequest = func(q client.Query) (*gpb.SubscribeRequest, error) {
 			if w := curReal.Load(); w != nil {
@@ -412,6 +399,22 @@ func realInstall() {
 			return orig(q)
 		}
 	})
+}
+
+// realTrapCtor is the constructor registered as realTrapType.
+func realTrapCtor(ctx context.Context, d client.Destination) (client.Impl, error) {
+	w := curReal.Load()
+	if w != nil {
+		w.trap("pre-dial")
+	}
+	impl, err := gclient.New(ctx, d)
+	if err != nil {
+		return nil, err
+	}
+	if w != nil {
+		w.trap("post-dial")
+	}
+	return impl, nil
 }
 
 // trap runs on the goroutine that sets the attempt up.
